@@ -424,13 +424,20 @@ def beyond_the_property(tier, rnd, work):
             print("NOTE property=C01 MC_Env: " + str(mce.violation)[:200], flush=True)
         if not wit.violation:
             print("NOTE property=C01 MC_Env_W_OneUuid: the witness configuration no longer violates - the exhaustive run may be vacuous", flush=True)
+        apa = {"base: EInit => IndInv": C.run_apalache("ApaEnv", "EInit", "IndInv", 0, 300, cinit="CInit", next_="ENext"),
+               "step: IndInv /\\ ENext => IndInv'": C.run_apalache("ApaEnv", "IndInit", "IndInv", 1, 600, cinit="CInit", next_="ENext"),
+               "witness: the step starts from rich states (must be Error)":
+                   C.run_apalache("ApaEnv", "IndInit", "NotRich", 0, 300, cinit="CInit", next_="ENext")}
+        if list(apa.values()) != ["NoError", "NoError", "Error"]:
+            print(f"NOTE property=C01 ApaEnv: the inductive invariant of QtlEnv was not discharged as expected: {apa}", flush=True)
         a_acc, a_fail, a_info = env_spec.attrs_campaign(bd, rnd, 40 if tier == "quick" else 1200, work)
         if a_fail:
             print(f"NOTE property=C01 the environment attribute handlers (spec/QtlEnv.tla: snapshot at construction, persistent "
                   f"application UUID) rejected {len(a_fail)} of {a_info['histories']} histories; first: "
                   f"{json.dumps(a_fail[0]['event'])[:300]}", flush=True)
         out["environment_attribute_handlers"] = dict(a_info, accepted_histories=a_acc, rejected_histories=len(a_fail),
-                                                     model_states=mce.distinct, witness_violates=bool(wit.violation))
+                                                     model_states=mce.distinct, witness_violates=bool(wit.violation),
+                                                     apalache_inductive_invariant=apa)
         mcl = C.run_tlc("MC_LineSinks", "MC_LineSinks.cfg" if tier == "quick" else "MC_LineSinks_thorough.cfg", workers=8,
                         deadlock=False, timeout=1500)
         w1 = C.run_tlc("MC_LineSinks", "MC_LineSinks_W_Tag.cfg", workers=2, deadlock=False)
